@@ -1,18 +1,31 @@
 (* Correspondence cases for C15.  A case is one client-side page chain: the listing the server pages
-   over (taken from the model-level listing, not from the paged RPC), the requested page size, the
-   first token, and everything the real handler answered while the client followed next_page_token
-   (cut off by the harness after n + 3 calls).
+   over (taken from the model-level listing, not from the paged RPC), whether the request's read
+   mask leaves the key field out, the page size of EACH request of the chain (they may differ), the
+   first token (raw text + what the library makes of it: the key it names and the bytes of the
+   unknown fields it carries, which the server hands on in its own tokens), and everything the real handler answered
+   while the client followed next_page_token (the harness makes at most [length sizes] = n + 3 calls).
+   The next_page_token of every answer is recorded as the raw string the server returned.
 
-   [agrees]  : the observation is exactly what the model of the handler computes.
-   [C15_ok]  : the property itself, evaluated on the observation without the model's pager:
-               concatenation of the pages = the expected remainder of the listing, page sizes and
-               total_size respected, chain ended by an empty token within n + 2 calls, bad inputs
-               answered by one error status; a recovered panic is never acceptable. *)
-From SC Require Import Base.Prelude Pages.Pager.
+   [agrees]  : the observation is exactly what the model of the handler computes (incl. the raw
+               tokens, byte for byte), and the model's own token decoder does not contradict the
+               library's classification of the first token.
+   [C15_ok]  : the property itself, evaluated on the observation without the model's pager: walking
+               down the expected remainder of the listing page by page; page sizes and total_size
+               respected, chain ended by an empty token within n + 2 calls, bad inputs answered by
+               one error status; a recovered panic is never acceptable. *)
+From SC Require Import Base.Prelude Pages.Codec Pages.PagerCfg Pages.Pager.
 
 Inductive c15case :=
-| KKeys (s : server) (keys : list string) (size : Z) (tok : token) (obs : list (outcome string))
-| KWaste (ids : list string) (size : Z) (tok : wtoken) (obs : list (outcome Z)).
+| KKeys (s : server) (keys : list string) (dropkey : bool) (sizes : list Z) (raw0 : string) (tok : token)
+        (extra : list Z) (obs : list (outcome string))
+| KWaste (ids : list string) (sizes : list Z) (tok : wtoken) (obs : list (outcome Z)).
+
+(* page sizes of a chain written as a repeating pattern: request i uses pattern[i mod |pattern|] *)
+Definition cyc (p : list Z) (fuel : nat) : list Z :=
+  map (fun i => nth (Nat.modulo i (List.length p)) p 0) (seq 0 fuel).
+
+(* strings given by their bytes (ids that are not printable ASCII) *)
+Definition bstr (bs : list Z) : string := string_of_bytes bs.
 
 (* ---- equality of observations ---- *)
 Definition outcome_eqb {T} (teqb : T -> T -> bool) (a b : outcome T) : bool :=
@@ -23,24 +36,29 @@ Definition outcome_eqb {T} (teqb : T -> T -> bool) (a b : outcome T) : bool :=
   | _, _ => false
   end.
 
-Definition harness_fuel {A} (l : list A) : nat := (List.length l + 3)%nat.
+Definition token_eqb (a b : token) : bool :=
+  match a, b with
+  | TokEmpty, TokEmpty | TokMalformed, TokMalformed => true
+  | TokKey x, TokKey y => String.eqb x y
+  | _, _ => false
+  end.
+
+(* the model's decoder against the library on the first token: when the model recognises a plain
+   last_resource_name token the library must have found the same key *)
+Definition first_token_consistent (c : pager_cfg) (raw0 : string) (tok : token) : bool :=
+  if String.eqb raw0 EmptyString then token_eqb tok TokEmpty
+  else match decode_token (pc_dec c) raw0 with
+       | DKey k => token_eqb tok (TokKey k)
+       | _ => negb (token_eqb tok TokEmpty)
+       end.
 
 Definition agrees (c : c15case) : bool :=
   match c with
-  | KKeys s keys size tok obs =>
-      list_eqb (outcome_eqb String.eqb) obs (key_chain (variant_of s) keys size (harness_fuel keys) tok)
-  | KWaste ids size tok obs =>
-      list_eqb (outcome_eqb Z.eqb) obs (waste_chain ids size (harness_fuel ids) tok)
-  end.
-
-(* the handlers as they were before the fix commits (used once, against the unfixed tree, to confirm
-   that the recorded defects are the model's [_v0] behaviour; see notes/C15.md) *)
-Definition agrees_v0 (c : c15case) : bool :=
-  match c with
-  | KKeys s keys size tok obs =>
-      list_eqb (outcome_eqb String.eqb) obs (key_chain_v0 (variant_of s) keys size (harness_fuel keys) tok)
-  | KWaste ids size tok obs =>
-      list_eqb (outcome_eqb Z.eqb) obs (waste_chain_v0 ids size (harness_fuel ids) tok)
+  | KKeys s keys dropkey sizes raw0 tok extra obs =>
+      list_eqb (outcome_eqb String.eqb) obs (key_chain (cfg_of s) keys dropkey sizes (WFirst tok extra))
+      && first_token_consistent (cfg_of s) raw0 tok
+  | KWaste ids sizes tok obs =>
+      list_eqb (outcome_eqb Z.eqb) obs (waste_chain ids sizes tok)
   end.
 
 (* ---- the property, as a predicate on observations ---- *)
@@ -61,11 +79,33 @@ Definition concat_keys {T} (obs : list (outcome T)) : list string := flat_map pa
 Definition page_fits {T} (cap n : Z) (o : outcome T) : bool :=
   match o with OPage k _ t => (zlen k <=? cap) && (t =? n) | _ => false end.
 
-Definition enumerates {T} (expected : list string) (n size : Z) (obs : list (outcome T)) : bool :=
-  chain_shape_ok obs
-  && list_eqb String.eqb (concat_keys obs) expected
-  && forallb (page_fits (spec_cap size) n) obs
-  && (zlen obs <=? n + 2).
+Fixpoint is_prefix (a b : list string) : bool :=
+  match a, b with
+  | [], _ => true
+  | x :: a', y :: b' => String.eqb x y && is_prefix a' b'
+  | _, _ => false
+  end.
+
+(* walk down [rest] (what is still to be listed) along the answers; request i asked for sizes[i]:
+   a negative size must be answered by an error status and nothing else; otherwise the answer is a
+   page holding the next items of [rest], at most spec_cap sizes[i] of them, total_size n; a page
+   without token must exhaust [rest] and be the last answer; a page with a token must be followed by
+   another answer (the harness stops after n + 3 calls: an endless chain fails here) *)
+Fixpoint enumerates {T} (rest : list string) (n : Z) (sizes : list Z) (obs : list (outcome T)) : bool :=
+  match sizes, obs with
+  | s :: ss, o :: os =>
+      if s <? 0 then match o with OErr c => negb (c =? 0) && is_nil os | _ => false end
+      else match o with
+           | OPage k nx t =>
+               (zlen k <=? spec_cap s) && (t =? n) && is_prefix k rest
+               && match nx with
+                  | None => is_nil os && (zlen k =? zlen rest)
+                  | Some _ => negb (is_nil os) && enumerates (skipn (List.length k) rest) n ss os
+                  end
+           | _ => false
+           end
+  | _, _ => false
+  end.
 
 (* one answer, an error status *)
 Definition rejected {T} (obs : list (outcome T)) : bool :=
@@ -90,34 +130,43 @@ Definition waste_expected (ids : list string) (tok : wtoken) : list string :=
 
 Definition C15_ok (c : c15case) : bool :=
   match c with
-  | KKeys s keys size tok obs =>
+  | KKeys s keys dropkey sizes raw0 tok extra obs =>
       match tok with
       | TokMalformed => rejected obs
-      | _ => if size <? 0 then rejected obs
-             else enumerates (expected_after keys tok) (zlen keys) size obs
+      | _ => enumerates (expected_after keys tok) (zlen keys) sizes obs && (zlen obs <=? zlen keys + 2)
       end
-  | KWaste ids size tok obs =>
-      if waste_token_bad (zlen ids) tok || (size <? 0) then rejected obs
-      else enumerates (waste_expected ids tok) (zlen ids) size obs
+  | KWaste ids sizes tok obs =>
+      if waste_token_bad (zlen ids) tok then rejected obs
+      else enumerates (waste_expected ids tok) (zlen ids) sizes obs && (zlen obs <=? zlen ids + 2)
   end.
 
-(* hypotheses of the theorems: the listing is strictly ascending (sorted, duplicate free) and no
-   key is the empty string; waste needs nothing *)
+(* hypotheses of the theorems: the listing is strictly ascending (sorted, duplicate free), no key is
+   the empty string, keys are valid UTF-8 (they are proto string fields), the collection size fits
+   total_size (int32), and the client is prepared to make more calls than there are items *)
 Fixpoint strictly_sorted (l : list string) : bool :=
   match l with
   | a :: (b :: _) as r => String.ltb a b && strictly_sorted r
   | _ => true
   end.
 Definition keys_wf (keys : list string) : bool :=
-  strictly_sorted keys && negb (existsb (String.eqb EmptyString) keys).
+  strictly_sorted keys && negb (existsb (String.eqb EmptyString) keys) && forallb key_utf8 keys.
 
 Definition C15_guard (c : c15case) : bool :=
   match c with
-  | KKeys _ keys _ _ _ => keys_wf keys
-  | KWaste _ _ _ _ => true
+  | KKeys _ keys _ sizes _ _ extra _ => keys_wf keys && in32 (zlen keys) && (zlen keys <? zlen sizes) && forallb is_byte_b extra
+  | KWaste ids sizes _ _ => in32 (zlen ids) && (zlen ids <? zlen sizes)
   end.
 
 Definition judge (c : c15case) : Z :=
   verdict (agrees c) (if C15_guard c then C15_ok c else true) None.
-Definition judge_v0 (c : c15case) : Z :=
-  verdict (agrees_v0 c) (if C15_guard c then C15_ok c else true) None.
+
+(* which branch of the model a case exercises (for the coverage histogram in the evidence) *)
+Definition first_answer_class {T} (obs : list (outcome T)) : Z :=
+  match obs with
+  | [] => 0
+  | OErr _ :: _ => 1
+  | OPanic :: _ => 2
+  | OPage [] None _ :: _ => 3        (* empty last page *)
+  | OPage _ None _ :: _ => 4         (* everything fits *)
+  | OPage _ (Some _) _ :: _ => 5     (* full page + token *)
+  end.
